@@ -23,7 +23,9 @@ RULE = ("daemon: cases are 1-4 control messages from four families (raw "
         "and hook-guarded watchers and workers that may fail to exec; after "
         "each message the daemon is run to quiescence and the replies "
         "addressed to that message are counted and parsed, then a numwatchers "
-        "probe is sent.  client: scripts of deliveries (matching / stale / "
+        "probe is sent.  overlap: one slow request (workers ignore the stop "
+        "signal) followed by 1-4 requests sent while it is in flight, every "
+        "one of which must get exactly one reply with its id.  client: scripts of deliveries (matching / stale / "
         "foreign-id / duplicate replies, empty polls, batches) around one "
         "call().  Non-trivial = the message is not a valid request that "
         "succeeds synchronously (invalid, refused, failing asynchronously, "
@@ -721,9 +723,117 @@ def execute_client(case):
     return viols, nontrivial, classes
 
 
+OVERLAP_FIRST = [
+    ("quit", {}), ("quit", {"waiting": True}),
+    ("stop", {"name": "a", "match": "simple", "waiting": True}),
+    ("stop", {}), ("stop", {"waiting": True}),
+    ("restart", {"name": "a", "match": "simple", "waiting": True}),
+    ("restart", {}), ("restart", {"waiting": True}),
+    ("reload", {"name": "a", "waiting": True}),
+    ("rm", {"name": "a", "waiting": True}),
+    ("decr", {"name": "a", "waiting": True}),
+]
+OVERLAP_NEXT = [
+    ("quit", {}), ("quit", {"waiting": True}), ("stop", {}),
+    ("stop", {"name": "g", "match": "simple", "waiting": True}),
+    ("start", {}), ("restart", {}), ("restart", {"name": "a"}),
+    ("reload", {}), ("incr", {"name": "a"}), ("list", {}),
+    ("status", {"name": "a"}), ("numwatchers", {}), ("nosuch", {}),
+    ("set", {"name": "a", "options": {"numprocesses": 3}}),
+    ("reloadconfig", {}), ("rm", {"name": "g"}),
+    ("add", {"name": "n1", "cmd": "x"}), ("stats", {}),
+]
+
+
+def execute_overlap(case):
+    """A slow operation (workers ignore the stop signal) is in flight while
+    further requests arrive: each request that reached the controller before
+    the endpoint was closed gets exactly one well-formed reply with its id,
+    none if it was a cast."""
+    hc = {"watchers": [dict(w) for w in BASE_WATCHERS], "ops": [],
+          "tape": [], "default_beh": {"react": "ignore"}}
+    h = History(hc)
+    w = h.world
+    viols = []
+    classes = ['family-overlap']
+    try:
+        h.start()
+        sent = []
+        msgs = [case["first"]] + list(case["messages"])
+        for i, m in enumerate(msgs):
+            if w.dead or w.exited or w.ctrl.stream.closed:
+                break
+            value = {"id": "o%d" % i, "command": m[0],
+                     "properties": dict(m[1])}
+            if len(m) > 2 and m[2]:
+                value["msg_type"] = "cast"
+            busy = not w.quiescent()
+            req = w.send_raw(json.dumps(value).encode())
+            sent.append((req, value, busy))
+            if busy and i > 0:
+                classes.append('request-while-busy')
+            w.step(case["gaps"][i % len(case["gaps"])])
+        w.drain(600.0)
+        if w.blocked:
+            viols.append(Violation('C06:blocked:%s' % w.blocked_where,
+                                   'event loop blocked'))
+        for req, value, busy in sent:
+            want = 0 if value.get("msg_type") == "cast" else 1
+            n = len(req.replies)
+            tag = '%s%s:%s' % (value["command"],
+                               ':waiting' if value["properties"].get(
+                                   "waiting") else '',
+                               'busy' if busy else 'idle')
+            if n != want:
+                viols.append(Violation(
+                    'C06:overlap:%s:%s' % (
+                        'no-reply' if n == 0 else 'multiple-replies'
+                        if want else 'reply-to-cast', tag),
+                    '%d replies (expected %d) to %r sent while another '
+                    'operation was %s; first request %r' % (
+                        n, want, value, 'in flight' if busy else 'not in '
+                        'flight', msgs[0])))
+            for (_t, rp) in req.replies:
+                try:
+                    rep = json.loads(rp)
+                except Exception:
+                    rep = None
+                if not isinstance(rep, dict) or rep.get("id") != value["id"]:
+                    viols.append(Violation(
+                        'C06:overlap:bad-reply:' + tag,
+                        'reply %r to %r' % (rp[:120], value)))
+        if w.framing_errors:
+            viols.append(Violation(
+                'C06:overlap:malformed-multipart-reply',
+                'frames %r' % (w.framing_errors[0]["frames"],)))
+    finally:
+        h.close()
+    seen = set()
+    out = []
+    for v in viols:
+        if v["signature"] not in seen:
+            seen.add(v["signature"])
+            out.append(v)
+    return out, 'request-while-busy' in classes, sorted(set(classes))
+
+
+def _overlap_strategy():
+    from hypothesis import strategies as st
+    nxt = st.tuples(st.sampled_from(OVERLAP_NEXT),
+                    st.integers(0, 9)).map(
+        lambda t: [t[0][0], t[0][1], t[1] == 0])
+    return st.fixed_dictionaries({
+        "overlap": st.just(True),
+        "first": st.sampled_from(OVERLAP_FIRST).map(list),
+        "messages": st.lists(nxt, min_size=1, max_size=4),
+        "gaps": st.lists(st.integers(0, 3), min_size=1, max_size=4)})
+
+
 def execute(case):
     if "script" in case:
         return execute_client(case)
+    if case.get("overlap"):
+        return execute_overlap(case)
     return execute_daemon(case)
 
 
@@ -742,6 +852,8 @@ def plan(tier, seed):
              for i in range(13)]
     specs += [{"kind": "client", "seed": seed * 100 + 50 + i, "n": nc}
               for i in range(3)]
+    specs += [{"kind": "overlap", "seed": seed * 100 + 70 + i, "n": n}
+              for i in range(2)]
     runs = 1500 if tier == 'quick' else 60000
     specs += [{"kind": "atheris", "mode": "bytes", "seed": seed, "runs": runs,
                "corpus": "empty"},
@@ -840,6 +952,11 @@ def run_shard(spec):
         found = hyp_search(_daemon_strategy(), execute_daemon, stats,
                            spec["seed"], spec["n"], known=spec["known"],
                            max_rounds=8)
+    elif spec["kind"] == 'overlap':
+        stats = Stats()
+        found = hyp_search(_overlap_strategy(), execute_overlap, stats,
+                           spec["seed"], spec["n"], known=spec["known"],
+                           max_rounds=4)
     else:
         found = hyp_search(_client_strategy(), execute_client, stats,
                            spec["seed"], spec["n"], known=spec["known"])
